@@ -13,6 +13,7 @@ The model is tied to the code two ways on every run of `bin/check C01`:
 -/
 import TinyVerif.Model.Mutex
 import TinyVerif.Proofs.MutexInv
+import TinyVerif.Proofs.MutexLive
 import TinyVerif.Gen.SyncSites
 set_option linter.unusedSimpArgs false
 set_option linter.unusedVariables false
@@ -200,6 +201,50 @@ theorem try_lock_succeeds_if_free (c : Cfg) (s : St) (i : Nat) (hi : i < s.n)
   have : ¬ i ≥ s.n := by omega
   simp [this, hpc, h0]
 
+theorem run_pinv (c : Cfg) (s s' : St) (evs : List (Nat × Ev)) (h : run c s evs = some s') (hp : PInv s) : PInv s' := by
+  induction evs generalizing s with
+  | nil => simp [run] at h; subst h; exact hp
+  | cons x rest ih =>
+    obtain ⟨i, e⟩ := x
+    simp only [run] at h
+    split at h
+    · rename_i s1 h1
+      exact ih s1 h (step_pinv c s s1 i e h1 hp)
+    · simp at h
+
+/-- **every `lock()` call can return once the holder releases** (liveness in possibility form): from every
+reachable state, a thread anywhere inside a blocking `lock()` call — spinning, about to mark the word contended,
+about to wait, or parked in the kernel — can be driven to hold the lock by a schedule in which only the current
+holder (running to its unlocking swap) and then the thread itself take steps; no third party and no lucky wake is
+needed (a parked thread resumes through a futex return the kernel is always allowed to make).  Under a fair
+scheduler this is what "every lock() returns once holders keep releasing" needs from the protocol; starvation by
+barging threads is inherent to this lock and is not excluded. -/
+theorem mutex_can_always_acquire (c : Cfg) (hc : c.Good) (s : St) (h : Reachable c s) (t : Nat) (ht : t < s.n)
+    (hl : inLock (s.ths t) = true) :
+    ∃ evs s', run c s evs = some s' ∧ holds (s'.ths t) = true := by
+  have inv := reachable_inv c hc s h
+  have pinv : PInv s := by
+    obtain ⟨progs, evs, hr⟩ := h
+    exact run_pinv c _ s evs hr (init_pinv progs)
+  by_cases h0 : s.wval = 0
+  · obtain ⟨s', ⟨evs, _, hr, _, _⟩, hh⟩ := acquire_when_free c s t ht h0 hl
+    exact ⟨evs, s', hr, hh⟩
+  · obtain ⟨u, hu⟩ := inv.held h0
+    have hun : u < s.n := by
+      by_cases hlt : u < s.n
+      · exact hlt
+      · have := inv.outside u (by omega); simp [holds, this] at hu
+    have hut : u ≠ t := by
+      intro heq; subst heq
+      unfold inLock at hl; unfold holds at hu
+      cases hpc : (s.ths u).pc <;> simp_all
+    obtain ⟨s1, ⟨e1, _, r1, n1, o1⟩, w1⟩ := release_holder c s u hun pinv hu
+    have ht1 : t < s1.n := by rw [n1]; exact ht
+    have hl1 : inLock (s1.ths t) = true := by rw [o1 t (Ne.symm hut)]; exact hl
+    obtain ⟨s2, ⟨e2, _, r2, _, _⟩, hh⟩ := acquire_when_free c s1 t ht1 w1 hl1
+    refine ⟨e1 ++ e2, s2, ?_, hh⟩
+    rw [run_append, r1]; exact r2
+
 /-! ## the orderings are necessary: with a relaxed unlock (or a relaxed acquire) the model exhibits a race.
 These witnesses are what the check replays when `gen_cfg_good` breaks. -/
 
@@ -230,6 +275,9 @@ def parkedState : Option (Nat × Bool × Bool) :=
     (fun s => (s.wval, isParked (s.ths 1), holds (s.ths 0)))
 
 example : parkedState = some (2, true, true) := by decide
+-- `mutex_can_always_acquire` applies to that state: thread 1 is parked inside lock()
+example : (run { genCfg with spinMax := 0 } (init [[⟨false, 0⟩], [⟨false, 0⟩]])
+    (parkTrace ++ [(1, .swap 2 1), (1, .load 2), (1, .fwait 2 true)])).map (fun s => inLock (s.ths 1)) = some true := by decide
 example : Reachable genCfg (init [[⟨false, 1⟩]]) := ⟨[[⟨false, 1⟩]], [], rfl⟩
 example : genCfg.Good := gen_cfg_good
 
